@@ -309,7 +309,41 @@ def m4_verify_loop(S):
     S.witness(ctx, ob, "reach_zero_value_bits_with_flags", [], T.and_(T.ne(s.t, 0), T.eq(value, 0), inv))
 
 
-OBLIGATIONS = [m1_since_decode, m2_locks, m3_commit_position, m4_verify_loop]
+def m5_cellbase_maturity(S):
+    """MaturityVerifier's predicate `cellbase_immature` on one cell: immature iff the cell is a non-genesis cellbase output and
+    the current epoch (exact fraction) is below cell epoch + maturity"""
+    ob = "C04.m5"
+    ctx = S.ctx()
+    syms = {"commit_number": ctx.int("x1", "u64"), "commit_epoch": ctx.int("x2", "u64"), "commit_epoch_number": ctx.int("x3", "u64"), "ts_base_is_block_ts": ctx.bool("x4")}
+    ctx.env = lock_env(ctx, syms)
+    cands = [f for f in S.prog.funcs if f.kind == "fn" and f.name.endswith("::verify::{closure#0}") and "transaction_verifier.rs:370" in f.name]
+    if len(cands) != 1:
+        raise Inconclusive(f"cellbase_immature closure: {len(cands)} candidates")
+    clo = cands[0]
+    mv = OpaqueV("mv", "MaturityVerifier")
+    cm = OpaqueV("cm", "CellMeta")
+    env_clo = AggV((ctx.ref_to(mv),), clo.params[0][1].lstrip("&"))
+    ps = S.run(ctx, clo, [ctx.ref_to(env_clo), ctx.ref_to(cm)])
+
+    def sym(rx_):
+        c = [n for n in ctx.decls if re.fullmatch(rx_, n)]
+        return T.var(c[0]) if len(c) == 1 else None
+    some = sym(r"cm\.2\.some"); bnum = sym(r"cm\.2\.Some\.(_\.)?1"); bep = sym(r"cm\.2\.Some\.(_\.)?2\.0"); idx = sym(r"cm\.2\.Some\.(_\.)?3")
+    cur = sym(r"mv\.1\.0"); mat = sym(r"mv\.2\.0")
+    if None in (some, bnum, bep, idx, cur, mat):
+        raise Inconclusive("symbols of the cell's transaction info / verifier fields not found")
+    cn, cd = rat_of_epoch(cur); mn, md = rat_of_epoch(mat); bn_, bd = rat_of_epoch(bep)
+    pre = [T.ne(cd, 0), T.ne(md, 0), T.ne(bd, 0)]
+    S.prove(ctx, ob, "no_panic_for_well_formed_epochs", pre, T.not_(cond_of(panics(ps))))
+    imm = merged(ps, as_bool)
+    # current < maturity + cell epoch   <=>   cn/cd < mn/md + bn/bd
+    thr_n, thr_d = T.add(T.mul(mn, bd), T.mul(bn_, md)), T.mul(md, bd)
+    spec = T.and_(T.eq(some, 1), T.gt(bnum, 0), T.eq(idx, 0), T.lt(T.mul(cn, thr_d), T.mul(thr_n, cd)))
+    S.prove(ctx, ob, "immature_iff_non_genesis_cellbase_below_epoch_threshold", pre, T.iff(imm, spec), timeout_s=180)
+    S.witness(ctx, ob, "reach_immature", pre, T.and_(imm, T.gt(bn_, 0)))
+
+
+OBLIGATIONS = [m1_since_decode, m2_locks, m3_commit_position, m4_verify_loop, m5_cellbase_maturity]
 
 
 def validate(S, native):
@@ -325,7 +359,7 @@ ENGINE = "M"
 LEVEL = "other"
 EXPLANATION = ("RFC-0017 `since` decoding for all 2^64 values and the verdict table of absolute/relative locks (block number, epoch fraction in exact rationals, median time), "
                "plus the commit-position arithmetic of TxVerifyEnv, decided by SMT over the real MIR.")
-BOUNDS = {"values": "all u64 since values and contexts", "outside": "input liveness/double spend (HashSet + store), dep groups, scripts (VM), capacity sums, relative timestamp branch base selection beyond dataflow, MaturityVerifier"}
+BOUNDS = {"values": "all u64 since values and contexts", "outside": "input liveness/double spend (HashSet + store), dep groups, scripts (VM), capacity sums, relative timestamp branch base selection beyond dataflow"}
 ASSUMPTIONS = ["RationalU256 arithmetic/comparison and EpochNumberWithFraction::to_rational are replaced by exact rationals (numerator/denominator integers); a zero epoch length is the documented panic",
                "tx_env, consensus and data-loader accessors are environment symbols", "relative block-number lock: info.block_number + value does not overflow u64 (otherwise the real code panics: reported as precondition)"]
 TRUSTED = ["exact-rational model of ckb-rational (not cross-checked against the numext code in this run)"]
